@@ -90,6 +90,11 @@ CLAIMED = {
                  "LpProblem.solve is replaced by a capture of the built model. For every 0/1 point z3 decides, for all parameter values, model-feasible <=> the method's hard rules, and objective == the method's own "
                  "distribution_cost of the decoded placement. One listed finding (oilp_cgdp objective with pinned computations).",
             "Model == specification only: the LP solver itself (GLPK, not installed) is trusted and never run. Bounded: <= 3 computations x 2 agents (3 in thorough), unit message load, real parameters in [0, 2^20].", "4/C24", S),
+    "C25": ("S", "Real UCSReplication computations (one per agent, real Discovery, stand-in Agent) exchange their real messages on the bench with symbolic capacities, footprints, hosting and route costs "
+                 "(the sorted path tables fork on them), k chosen, FIFO interleavings explored; z3 decides at every acceptance the capacity inequality recomputed from the replicas actually held, and the final "
+                 "placement is checked (everyone done, distinct non-owner hosts, <= k, recorded in discovery, known to the owner).",
+            "Bounded: 3 agents in a line with one computation each (canonical schedule with symbolic costs; all interleavings with pinned costs), a 4-computation star with two computations on one agent; k <= 2; "
+            "no directory (discoveries pre-filled); agent departures outside.", "4/C25", S),
     "C26": ("S", "create_*_constraint called with symbolic footprints, remaining capacity, hosting and communication costs and every binary assignment of the repair variables; z3 decides equality with the "
                  "defining sums / '0 iff' rules. removal._removal_* run on every real Discovery state in the bound (hosting, replica sets, departed subsets) and compared with the repair rules.",
             "Bounded: <= 3 (4) repair variables per constraint; chain of 3 computations on 3 agents (triangle on 4 in thorough), replica sets <= 2, departed subsets <= 2.", "4/C26", S),
